@@ -31,6 +31,7 @@ fn main() {
         "pack-record" => xv::pack::cmd_record(rest),
         "arith-replay" => xv::arith::cmd_replay(rest),
         "arith-record" => xv::arith::cmd_record(rest),
+        "coll-replay" => xv::coll::cmd_replay(rest),
         other => {
             eprintln!("unknown subcommand {}", other);
             2
